@@ -82,12 +82,10 @@ func (r *RedundantWhitespaceRule) Check(ctx *linter.Context) ([]linter.Violation
 				// Calculate actual column in original line
 				column := part.startCol + match[0] + 1 // 1-indexed
 
-				// Skip if this is at the beginning of line (indentation)
-				if part.startCol == 0 && match[0] == 0 {
-					// Check if it's leading whitespace on the line
-					if strings.TrimLeft(line[:column], " \t") == "" {
-						continue // Skip leading indentation
-					}
+				// Skip runs of spaces that lie inside the line's leading whitespace (indentation,
+				// also after a tab): Fix leaves indentation alone, so Check must not report it
+				if strings.TrimLeft(line[:part.startCol+match[0]], " \t") == "" {
+					continue
 				}
 
 				violations = append(violations, linter.Violation{
